@@ -281,6 +281,20 @@ func (p *prover) intFacts(k string, v ssa.Value) {
 			}
 			p.ge(ls.add(lin{c: map[string]int64{}, k: nl}, -1), self, "F1 index <= len(s) - len(needle)")
 		}
+		// a finder of the package over one of its string arguments: -1, or an index it has compared with that
+		// argument's length (F1 for package functions)
+		if callee := x.Common().StaticCallee(); callee != nil && w.isMain(callee) {
+			if pi, ok := w.strIndexSummary(callee); ok && pi < len(x.Call.Args) {
+				p.addFact(self.add(one, 1), "F1s package finder >= -1")
+				ls := newLin()
+				if s, ok := constString(x.Call.Args[pi]); ok {
+					ls.k = int64(len(s))
+				} else {
+					ls.c[p.lenKey(x.Call.Args[pi])] = 1
+				}
+				p.ge(ls.add(one, -1), self, "F1s package finder <= len(s) - 1")
+			}
+		}
 		if w.nonNeg(v, map[ssa.Value]bool{}, 0) {
 			p.addFact(self, "non-negative by construction (all producers are non-negative)")
 		}
@@ -464,6 +478,15 @@ func (p *prover) tighten() {
 			switch w.calleeName(c) {
 			case "strings.IndexByte", "strings.Index", "strings.LastIndex":
 				idx = append(idx, c)
+			default:
+				// a finder of the package whose answer, when not -1, is an index at which its string argument holds
+				// its needle argument (string first, needle second: the shape of strings.IndexByte)
+				if callee := c.Common().StaticCallee(); callee != nil && w.isMain(callee) && len(c.Call.Args) == 2 {
+					pi, ok := w.strIndexSummary(callee)
+					if ok && pi == 0 && w.strIndexPointsAtNeedle(callee) {
+						idx = append(idx, c)
+					}
+				}
 			}
 		}
 	}
@@ -1191,4 +1214,146 @@ func freshFieldInit(fn *ssa.Function, v ssa.Value) ssa.Value {
 		return st.Val
 	}
 	return nil
+}
+
+var strIndexMemo = map[*ssa.Function]int{}
+
+// strIndexSummary: fn(.., s string, ..) int answers -1 or an index i of s: every returned value is the constant -1, or
+// a non-negative value that was compared `i < len(s)` on the way to the return (the return lies on the true side of
+// that test), s being one and the same string parameter, which fn never reassigns (parameters are SSA values).
+// Returns the index of that parameter.
+func (w *World) strIndexSummary(fn *ssa.Function) (int, bool) {
+	if r, ok := strIndexMemo[fn]; ok {
+		return r, r >= 0
+	}
+	strIndexMemo[fn] = -1
+	if fn.Blocks == nil || fn.Signature.Results().Len() != 1 || !isIntegerType(fn.Signature.Results().At(0).Type()) {
+		return -1, false
+	}
+	param := -1
+	nIdx := 0
+	for _, r := range returnsUnder(fn, nil) {
+		// the returned value itself when it is one that was compared (a loop counter is a phi: not taken apart), else the
+		// values it joins
+		var cands []ssa.Value
+		var collect func(v ssa.Value, d int)
+		collect = func(v ssa.Value, d int) {
+			v = strip(v)
+			compared := false
+			for _, b := range fn.Blocks {
+				if len(b.Instrs) == 0 {
+					continue
+				}
+				if ifi, ok := b.Instrs[len(b.Instrs)-1].(*ssa.If); ok {
+					if cmp, ok := ifi.Cond.(*ssa.BinOp); ok && cmp.Op == token.LSS && strip(cmp.X) == v {
+						compared = true
+					}
+				}
+			}
+			if ph, isPhi := v.(*ssa.Phi); isPhi && !compared && d < 4 {
+				for _, e := range ph.Edges {
+					collect(e, d+1)
+				}
+				return
+			}
+			cands = append(cands, v)
+		}
+		collect(r.Results[0], 0)
+		for _, v := range cands {
+			if k, ok := constInt(v); ok && k == -1 {
+				continue
+			}
+			if !w.nonNeg(v, map[ssa.Value]bool{}, 0) {
+				return -1, false
+			}
+			found := false
+			for _, b := range fn.Blocks {
+				if len(b.Instrs) == 0 || len(b.Succs) != 2 {
+					continue
+				}
+				ifi, ok := b.Instrs[len(b.Instrs)-1].(*ssa.If)
+				if !ok {
+					continue
+				}
+				cmp, ok := ifi.Cond.(*ssa.BinOp)
+				if !ok || cmp.Op != token.LSS || strip(cmp.X) != strip(v) {
+					continue
+				}
+				over, isLen := lenOf(cmp.Y)
+				if !isLen || !isStringType(over.Type()) {
+					continue
+				}
+				pi := -1
+				for i, pr := range fn.Params {
+					if strip(over) == ssa.Value(pr) {
+						pi = i
+					}
+				}
+				if pi < 0 || (param >= 0 && param != pi) {
+					continue
+				}
+				if b.Succs[0] != b.Succs[1] && len(b.Succs[0].Preds) == 1 && b.Succs[0].Dominates(r.Block()) {
+					param, found = pi, true
+				}
+			}
+			if !found {
+				return -1, false
+			}
+			nIdx++
+		}
+	}
+	if param < 0 || nIdx == 0 {
+		return -1, false
+	}
+	strIndexMemo[fn] = param
+	return param, true
+}
+
+// strIndexPointsAtNeedle: fn(s string, c byte) int returns, when not -1, an index i with s[i] == c: every return of a
+// non-constant value lies on the true side of a test `s[i] == c` of that very value, s and c being the two parameters.
+func (w *World) strIndexPointsAtNeedle(fn *ssa.Function) bool {
+	if len(fn.Params) != 2 {
+		return false
+	}
+	n := 0
+	for _, r := range returnsUnder(fn, nil) {
+		v := strip(r.Results[0])
+		if k, ok := constInt(v); ok && k == -1 {
+			continue
+		}
+		found := false
+		for _, b := range fn.Blocks {
+			if len(b.Instrs) == 0 || len(b.Succs) != 2 || b.Succs[0] == b.Succs[1] {
+				continue
+			}
+			ifi, ok := b.Instrs[len(b.Instrs)-1].(*ssa.If)
+			if !ok {
+				continue
+			}
+			cmp, ok := ifi.Cond.(*ssa.BinOp)
+			if !ok || cmp.Op != token.EQL {
+				continue
+			}
+			var lx, li ssa.Value
+			switch e := strip(cmp.X).(type) {
+			case *ssa.Lookup:
+				lx, li = e.X, e.Index
+			case *ssa.Index:
+				lx, li = e.X, e.Index
+			default:
+				continue
+			}
+			if strip(lx) != ssa.Value(fn.Params[0]) || strip(li) != v || strip(cmp.Y) != ssa.Value(fn.Params[1]) {
+				continue
+			}
+			if len(b.Succs[0].Preds) == 1 && b.Succs[0].Dominates(r.Block()) {
+				found = true
+			}
+		}
+		if !found {
+			return false
+		}
+		n++
+	}
+	return n > 0
 }
